@@ -12,9 +12,9 @@ for d in /verif/seeded/*/; do
   (cd $wt && git checkout -q --detach $(git -C /repo rev-parse HEAD) && git checkout -q -- . )
   if ! (cd $wt && git apply $d/patch.diff 2>/dev/null); then echo "=== $id PATCH-DOES-NOT-APPLY" >> $out; continue; fi
   echo "=== $id" >> $out
-  (cd /verif && VERIF_REPO=$wt timeout 3000 ./check $prop $tier) > /var/tmp/seedsweep_one.log 2>&1; code=$?
-  grep -E "VIOLATION|INCONCLUSIVE|KNOWN" /var/tmp/seedsweep_one.log | cut -c1-200 | head -6 >> $out
-  grep -A3 "^VIOLATION" /var/tmp/seedsweep_one.log | grep -E "^  harness|^  [a-z]" | head -4 | cut -c1-200 >> $out
+  (cd /verif && VERIF_REPO=$wt timeout 3000 ./check $prop $tier) > /var/tmp/seedsweep_one_$$.log 2>&1; code=$?
+  grep -E "VIOLATION|INCONCLUSIVE|KNOWN" /var/tmp/seedsweep_one_$$.log | cut -c1-200 | head -6 >> $out
+  grep -A2 "^VIOLATION" /var/tmp/seedsweep_one_$$.log | grep -v "^VIOLATION\|^--" | paste - - | sed 's/^/CAUGHT-BY: /' | cut -c1-330 >> $out
   echo "RESULT $id exit=$code" >> $out
   (cd $wt && git checkout -q -- .)
 done
